@@ -1,32 +1,65 @@
-// C17 conformance harness: interprets a script (ndjson on stdin) of registrations, erasures and
+// C17 conformance harness: interprets a script (ndjson on stdin) of registrations, erasures, copies and
 // dispatches on real xtl dispatchers / visitors and writes, after every call, the call's outcome
 // (which handler ran, with which static signature, which dynamic types / objects it saw in which
 // order, the undispatched arguments it received, the value that came back, or how the error was
-// reported) and the full observable projection of the dispatcher: the outcome of dispatching
+// reported) and the full observable projection of the dispatcher objects: the outcome of dispatching
 // every tuple of classes.  It contains no oracle: it executes and prints.
 //
 // Class ids (fixed, shared with specs/Dispatch.tla): 1=A 2=B 3=C 4=Base 5=D.
-//   A, B, C derive from Base; C has a second polymorphic base in front of Base (the Base
-//   sub-object is at a non-zero offset); D derives from A.  Object ids are 10*class + n, n in {0,1}.
+//   hierarchy hz: A, B, C derive from Base; C has a second polymorphic base in front of Base (the Base
+//   sub-object is at a non-zero offset); D derives from A.
+//   hierarchy hv (kinds vmap_dyn, vfast_dyn): A and B derive VIRTUALLY from Base, C derives from A and B.
+// Object ids are 10*class + n, n in {0,1}.
 //
-// -DC17_KIND=<n> (1..4) compiles only one functor-dispatcher kind (parallel builds); 0 = all.
-// -DC17_AR=12|3 compiles only arities {1,2} or {3}.
-#include <xtl/xmultimethods.hpp>
-#include <xtl/xvisitor.hpp>
-#include "vjson.hpp"
-#include <iostream>
-#include <typeinfo>
-#include <utility>
-#include <tuple>
-
+// -DC17_KIND=<n> compiles one part only (parallel builds, and a header change that breaks one part
+//    does not take the others with it): 1 map_dyn  2 map_static  3 fast_dyn  4 fast_static
+//    5 static_dispatcher  6 visitors (includes xvisitor.hpp only)  7 raw_map + raw_fast (the backends
+//    used directly with a user callback type)  8 vmap_dyn + vfast_dyn;  0 = everything.
+// -DC17_AR=12|3 compiles only arities {1,2} or {3} (arity 3 over the classes 1..3).
+// -DC17_SMALL: arities {1,2} reduced to (arity 1, no extras, const base) and (arity 2, one extra).
+// -DC17_FORK: every call that may report an error runs in a forked child; a child that aborts is the
+//    outcome "abort" (XTL_NO_EXCEPTIONS builds: XTL_THROW prints and aborts).
 #ifndef C17_KIND
 #define C17_KIND 0
 #endif
 #ifndef C17_AR
 #define C17_AR 0      // 0 = arities 1..3; 12 = arities 1 and 2 only; 3 = arity 3 only (parallel builds)
 #endif
+#ifndef C17_FORK
+#define C17_FORK 0
+#endif
+#ifndef C17_SMALL
+#define C17_SMALL 0   // 1 = only the combinations (arity 1, no extras, const base) and (arity 2, one extra)
+#endif
+#define C17_HAS(n) (C17_KIND == 0 || C17_KIND == (n))
+#define C17_FUNCTOR (C17_KIND == 0 || (C17_KIND >= 1 && C17_KIND <= 4) || C17_KIND == 7 || C17_KIND == 8)
+#define C17_STATIC C17_HAS(5)
+#define C17_VISIT C17_HAS(6)
+#define C17_MM (C17_FUNCTOR || C17_STATIC)
 
+#if C17_MM
+#include <xtl/xmultimethods.hpp>
+#endif
+#if C17_VISIT
+#include <xtl/xvisitor.hpp>
+#endif
+#include "vjson.hpp"
+#include <array>
+#include <functional>
+#include <iostream>
+#include <typeinfo>
+#include <utility>
+#include <tuple>
+#include <fcntl.h>
+#include <sys/mman.h>
+#include <sys/time.h>
+#include <sys/wait.h>
+
+#if C17_MM
 namespace mpl = xtl::mpl;
+#elif C17_VISIT
+namespace mpl = xtl::mpl;
+#endif
 
 // ------------------------------------------------------------------ what a handler records
 struct record_t
@@ -38,14 +71,31 @@ struct record_t
     std::vector<const void*> addr;         // addresses (of the complete objects) of the arguments, in the order received
     std::vector<long> xv;
     bool xid = true;
+    bool raw = false;         // the handler received base references only (raw backends): no typed tags to read
     int psig = 0, pobj = 0;   // what the recording catch-all policy was given
 };
 static record_t g;
-static const void* g_xaddr[2] = {nullptr, nullptr};
+static const void* g_xaddr[3] = {nullptr, nullptr, nullptr};
 // maps the address of a complete object back to the id of the caller's object (0 = not one of them)
 static std::function<int(const void*)> g_lookup;
 
-// ------------------------------------------------------------------ dispatcher hierarchy
+// counters that survive the death of a forked child
+struct shm_t { volatile int calls; volatile int rep; };
+static shm_t* g_shm = nullptr;
+static void note_call() { ++g.calls; if (g_shm) ++g_shm->calls; }
+static void note_rep() { ++g.rep; if (g_shm) ++g_shm->rep; }
+
+template <class T> struct tc { using type = T; };
+template <class T> struct cid_of;
+template <class T> struct cid_of<const T> : cid_of<T> {};
+[[noreturn]] static void bad_script(const char* m, long long v = 0)
+{
+    std::fprintf(stderr, "script: %s %lld\n", m, v);
+    std::exit(3);
+}
+
+// ------------------------------------------------------------------ dispatcher hierarchies
+#if C17_MM
 namespace hz
 {
     struct Pad
@@ -88,15 +138,6 @@ namespace hz
         long fill[2] = {3, 3};
         int tag;
     };
-
-    template <class T> struct cid_of;
-    template <> struct cid_of<A> : std::integral_constant<int, 1> {};
-    template <> struct cid_of<B> : std::integral_constant<int, 2> {};
-    template <> struct cid_of<C> : std::integral_constant<int, 3> {};
-    template <> struct cid_of<Base> : std::integral_constant<int, 4> {};
-    template <> struct cid_of<D> : std::integral_constant<int, 5> {};
-    template <class T> struct cid_of<const T> : cid_of<T> {};
-
     inline int dyn_cid(const Base& b)
     {
         const std::type_info& ti = typeid(b);
@@ -107,144 +148,240 @@ namespace hz
         if (ti == typeid(D)) return 5;
         return 0;
     }
+}
+template <> struct cid_of<hz::A> : std::integral_constant<int, 1> {};
+template <> struct cid_of<hz::B> : std::integral_constant<int, 2> {};
+template <> struct cid_of<hz::C> : std::integral_constant<int, 3> {};
+template <> struct cid_of<hz::Base> : std::integral_constant<int, 4> {};
+template <> struct cid_of<hz::D> : std::integral_constant<int, 5> {};
 
-    template <class T> struct tc { using type = T; };
-    template <class F> void with_class(int id, F&& f)
+struct HZ
+{
+    using Base = hz::Base;
+    template <class F> static void hi(int id, F&& f, std::true_type)
     {
         switch (id)
         {
-            case 1: f(tc<A>()); break;
-            case 2: f(tc<B>()); break;
-            case 3: f(tc<C>()); break;
-            case 4: f(tc<Base>()); break;
-            case 5: f(tc<D>()); break;
-            default: std::fprintf(stderr, "script: bad class id %d\n", id); std::exit(3);
+            case 4: f(tc<hz::Base>()); return;
+            case 5: f(tc<hz::D>()); return;
+            default: bad_script("bad class id", id);
         }
     }
-
-    inline void reset_indices()
+    template <class F> static void hi(int id, F&&, std::false_type) { bad_script("class id not compiled in at this arity", id); }
+    template <int MaxK, class F> static void with_class(int id, F&& f)
     {
-        A::get_class_static_index() = SIZE_MAX;
-        B::get_class_static_index() = SIZE_MAX;
-        C::get_class_static_index() = SIZE_MAX;
-        Base::get_class_static_index() = SIZE_MAX;
-        D::get_class_static_index() = SIZE_MAX;
+        switch (id)
+        {
+            case 1: f(tc<hz::A>()); return;
+            case 2: f(tc<hz::B>()); return;
+            case 3: f(tc<hz::C>()); return;
+            default: hi(id, f, std::integral_constant<bool, (MaxK > 3)>());
+        }
     }
-    inline std::vector<long long> indices()
+    static void reset_indices()
+    {
+        hz::A::get_class_static_index() = SIZE_MAX;
+        hz::B::get_class_static_index() = SIZE_MAX;
+        hz::C::get_class_static_index() = SIZE_MAX;
+        hz::Base::get_class_static_index() = SIZE_MAX;
+        hz::D::get_class_static_index() = SIZE_MAX;
+    }
+    static std::vector<long long> indices()
     {
         auto f = [](std::size_t v) { return v == SIZE_MAX ? 255ll : (long long)v; };
-        return {f(A::get_class_static_index()), f(B::get_class_static_index()), f(C::get_class_static_index()),
-                f(Base::get_class_static_index()), f(D::get_class_static_index())};
+        return {f(hz::A::get_class_static_index()), f(hz::B::get_class_static_index()), f(hz::C::get_class_static_index()),
+                f(hz::Base::get_class_static_index()), f(hz::D::get_class_static_index())};
     }
-
-    struct pool_t
+    static Base* make(int c, int n)
     {
-        Base* o[6][2];
-        pool_t()
+        switch (c)
         {
-            for (int n = 0; n < 2; ++n)
-            {
-                o[0][n] = nullptr;
-                o[1][n] = new A(10 + n);
-                o[2][n] = new B(20 + n);
-                o[3][n] = new C(30 + n);
-                o[4][n] = new Base(40 + n);
-                o[5][n] = new D(50 + n);
-            }
+            case 1: return new hz::A(10 + n);
+            case 2: return new hz::B(20 + n);
+            case 3: return new hz::C(30 + n);
+            case 4: return new hz::Base(40 + n);
+            case 5: return new hz::D(50 + n);
         }
-        ~pool_t() { for (int c = 1; c < 6; ++c) for (int n = 0; n < 2; ++n) delete o[c][n]; }
-        int find(const void* p) const
-        {
-            for (int c = 1; c < 6; ++c)
-                for (int n = 0; n < 2; ++n)
-                    if (dynamic_cast<const void*>(o[c][n]) == p) return 10 * c + n;
-            return 0;
-        }
-        Base* get(long long id) const
-        {
-            long long c = id / 10, n = id % 10;
-            if (c < 1 || c > 5 || n < 0 || n > 1) { std::fprintf(stderr, "script: bad object id %lld\n", id); std::exit(3); }
-            return o[c][n];
-        }
-    };
-}
-
-// ------------------------------------------------------------------ undispatched arguments
-struct xarg { int v; };
-inline void xrec(std::size_t) {}
-template <class... R> void xrec(std::size_t i, const xarg& x, R&... r);
-template <class... R> void xrec(std::size_t i, long& x, R&... r)
-{
-    g.xv.push_back(x);
-    if (i < 2 && g_xaddr[i] != static_cast<const void*>(&x)) g.xid = false;
-    xrec(i + 1, r...);
-}
-template <class... R> void xrec(std::size_t i, const xarg& x, R&... r)
-{
-    g.xv.push_back(x.v);
-    if (i < 2 && g_xaddr[i] != static_cast<const void*>(&x)) g.xid = false;
-    xrec(i + 1, r...);
-}
-
-template <std::size_t NX> struct xlist;
-template <> struct xlist<0> { using type = mpl::vector<>; };
-template <> struct xlist<1> { using type = mpl::vector<xarg>; };
-template <> struct xlist<2> { using type = mpl::vector<const xarg, long>; };
-
-// handler registered by Insert<Ds...>(h): records what it was given
-template <class... Ds>
-struct handler_t
-{
-    int h;
-    template <class... X>
-    long operator()(Ds&... ds, X&... xs) const
-    {
-        ++g.calls;
-        g.h = h;
-        g.sig = {hz::cid_of<Ds>::value...};
-        g.dyn = {hz::dyn_cid(ds)...};
-        g.tg = {ds.tag...};
-        g.addr = {dynamic_cast<const void*>(&ds)...};
-        g.xv.clear();
-        g.xid = true;
-        xrec(0, xs...);
-        long r = long(h) * 100;
-        for (long v : g.xv) r += v;
-        return r;
+        return nullptr;
     }
 };
+#endif
+
+#if C17_HAS(8)
+namespace hv
+{
+    struct Base
+    {
+        XTL_IMPLEMENT_INDEXABLE_CLASS()
+        explicit Base(int t = 0) : tag(t) {}
+        virtual ~Base() = default;
+        Base(const Base&) = delete;
+        Base& operator=(const Base&) = delete;
+        int tag;
+    };
+    struct A : virtual Base
+    {
+        XTL_IMPLEMENT_INDEXABLE_CLASS()
+        explicit A(int t = 0) : Base(0), tag(t) {}
+        long fa = 4;
+        int tag;
+    };
+    struct B : virtual Base
+    {
+        XTL_IMPLEMENT_INDEXABLE_CLASS()
+        explicit B(int t = 0) : Base(0), tag(t) {}
+        double fb = 2.5;
+        int tag;
+    };
+    struct C : A, B
+    {
+        XTL_IMPLEMENT_INDEXABLE_CLASS()
+        explicit C(int t = 0) : Base(0), A(0), B(0), tag(t) {}
+        int tag;
+    };
+    struct D : virtual Base      // a second virtual heir, used as class 5
+    {
+        XTL_IMPLEMENT_INDEXABLE_CLASS()
+        explicit D(int t = 0) : Base(0), tag(t) {}
+        int tag;
+    };
+    inline int dyn_cid(const Base& b)
+    {
+        const std::type_info& ti = typeid(b);
+        if (ti == typeid(A)) return 1;
+        if (ti == typeid(B)) return 2;
+        if (ti == typeid(C)) return 3;
+        if (ti == typeid(Base)) return 4;
+        if (ti == typeid(D)) return 5;
+        return 0;
+    }
+}
+template <> struct cid_of<hv::A> : std::integral_constant<int, 1> {};
+template <> struct cid_of<hv::B> : std::integral_constant<int, 2> {};
+template <> struct cid_of<hv::C> : std::integral_constant<int, 3> {};
+template <> struct cid_of<hv::Base> : std::integral_constant<int, 4> {};
+template <> struct cid_of<hv::D> : std::integral_constant<int, 5> {};
+
+struct HV
+{
+    using Base = hv::Base;
+    template <class F> static void hi(int id, F&& f, std::true_type)
+    {
+        switch (id)
+        {
+            case 4: f(tc<hv::Base>()); return;
+            case 5: f(tc<hv::D>()); return;
+            default: bad_script("bad class id", id);
+        }
+    }
+    template <class F> static void hi(int id, F&&, std::false_type) { bad_script("class id not compiled in at this arity", id); }
+    template <int MaxK, class F> static void with_class(int id, F&& f)
+    {
+        switch (id)
+        {
+            case 1: f(tc<hv::A>()); return;
+            case 2: f(tc<hv::B>()); return;
+            case 3: f(tc<hv::C>()); return;
+            default: hi(id, f, std::integral_constant<bool, (MaxK > 3)>());
+        }
+    }
+    static void reset_indices()
+    {
+        hv::A::get_class_static_index() = SIZE_MAX;
+        hv::B::get_class_static_index() = SIZE_MAX;
+        hv::C::get_class_static_index() = SIZE_MAX;
+        hv::Base::get_class_static_index() = SIZE_MAX;
+        hv::D::get_class_static_index() = SIZE_MAX;
+    }
+    static std::vector<long long> indices()
+    {
+        auto f = [](std::size_t v) { return v == SIZE_MAX ? 255ll : (long long)v; };
+        return {f(hv::A::get_class_static_index()), f(hv::B::get_class_static_index()), f(hv::C::get_class_static_index()),
+                f(hv::Base::get_class_static_index()), f(hv::D::get_class_static_index())};
+    }
+    static Base* make(int c, int n)
+    {
+        switch (c)
+        {
+            case 1: return new hv::A(10 + n);
+            case 2: return new hv::B(20 + n);
+            case 3: return new hv::C(30 + n);
+            case 4: return new hv::Base(40 + n);
+            case 5: return new hv::D(50 + n);
+        }
+        return nullptr;
+    }
+};
+#endif
+
+#if C17_MM
+template <class H>
+struct pool_t
+{
+    typename H::Base* o[6][2];
+    pool_t()
+    {
+        for (int n = 0; n < 2; ++n)
+        {
+            o[0][n] = nullptr;
+            for (int c = 1; c < 6; ++c) o[c][n] = H::make(c, n);
+        }
+    }
+    ~pool_t() { for (int c = 1; c < 6; ++c) for (int n = 0; n < 2; ++n) delete o[c][n]; }
+    pool_t(const pool_t&) = delete;
+    int find(const void* p) const
+    {
+        for (int c = 1; c < 6; ++c)
+            for (int n = 0; n < 2; ++n)
+                if (dynamic_cast<const void*>(o[c][n]) == p) return 10 * c + n;
+        return 0;
+    }
+    typename H::Base* get(long long id) const
+    {
+        long long c = id / 10, n = id % 10;
+        if (c < 1 || c > 5 || n < 0 || n > 1) bad_script("bad object id", id);
+        return o[c][n];
+    }
+};
+#endif
 
 // ------------------------------------------------------------------ outcome of one call
 struct outcome
 {
-    const char* exc = "none";
+    std::string exc = "none";
     std::string what;      // advisory: exception type (not compared by the property spec)
     long ret = 0;
-    record_t r;
+    int calls = 0, rep = 0, h = 0;
+    std::vector<int> sig, dyn, tg, ids;
+    std::vector<long> xv;
+    bool xid = true;
+    int psig = 0, pobj = 0;
 };
 
-static std::vector<int> ids_of(const std::vector<const void*>& addr)
+static void fill(outcome& o)
 {
-    std::vector<int> r;
-    for (const void* p : addr) r.push_back(g_lookup ? g_lookup(p) : 0);
-    return r;
+    o.calls = g.calls; o.rep = g.rep; o.h = g.h; o.sig = g.sig; o.dyn = g.dyn; o.xv = g.xv; o.xid = g.xid;
+    o.psig = g.psig; o.pobj = g.pobj;
+    o.ids.clear();
+    for (const void* p : g.addr) o.ids.push_back(g_lookup ? g_lookup(p) : 0);
+    o.tg = g.raw ? o.ids : g.tg;
 }
 
 static std::string outcome_json(const outcome& o)
 {
     vj::out v;
-    v.kv("calls", o.r.calls);
+    v.kv("calls", o.calls);
     v.kv("ret", o.ret);
-    v.kv("rep", o.r.rep);
-    if (std::string(o.exc) == "none")
+    v.kv("rep", o.rep);
+    if (o.exc == "none")
     {
-        v.kv("h", o.r.h);
-        v.kints("sig", o.r.sig).kints("dyn", o.r.dyn).kints("objs", ids_of(o.r.addr)).kints("tg", o.r.tg).kints("xv", o.r.xv);
-        v.kb("xid", o.r.xid);
+        v.kv("h", o.h);
+        v.kints("sig", o.sig).kints("dyn", o.dyn).kints("objs", o.ids).kints("tg", o.tg).kints("xv", o.xv);
+        v.kb("xid", o.xid);
     }
-    else if (o.r.psig != 0)
+    else if (o.psig != 0)
     {
-        v.kv("psig", o.r.psig).kv("pobj", o.r.pobj);
+        v.kv("psig", o.psig).kv("pobj", o.pobj);
     }
     vj::out res;
     res.ks("exc", o.exc);
@@ -252,8 +389,13 @@ static std::string outcome_json(const outcome& o)
     return res.obj();
 }
 
+struct empty_callback : std::exception
+{
+    const char* what() const noexcept override { return "empty user callback"; }
+};
+
 template <class F>
-static outcome guarded(F&& f, const char* quiet_error = nullptr)
+static outcome guarded_here(F&& f, const char* quiet_error)
 {
     outcome o;
     g = record_t();
@@ -267,21 +409,202 @@ static outcome guarded(F&& f, const char* quiet_error = nullptr)
     catch (const std::bad_cast&) { o.exc = "exception"; o.what = "bad_cast"; }
     catch (const std::out_of_range&) { o.exc = "exception"; o.what = "out_of_range"; }
     catch (const std::runtime_error&) { o.exc = "exception"; o.what = "runtime_error"; }
+    catch (const empty_callback&) { o.exc = "exception"; o.what = "empty_callback"; }
     catch (const std::exception&) { o.exc = "exception"; o.what = "std_exception"; }
-    o.r = g;
+    fill(o);
     return o;
 }
+
+#if C17_FORK
+// full serialisation of an outcome (child -> parent)
+static std::string wire(const outcome& o)
+{
+    vj::out v;
+    v.ks("exc", o.exc).ks("what", o.what).kv("ret", o.ret).kv("calls", o.calls).kv("rep", o.rep).kv("h", o.h);
+    v.kints("sig", o.sig).kints("dyn", o.dyn).kints("tg", o.tg).kints("ids", o.ids).kints("xv", o.xv);
+    v.kb("xid", o.xid).kv("psig", o.psig).kv("pobj", o.pobj);
+    return v.obj();
+}
+static std::vector<int> toints(const std::vector<long long>& v) { return std::vector<int>(v.begin(), v.end()); }
+static outcome unwire(const std::string& s)
+{
+    vj::value e = vj::parse(s);
+    outcome o;
+    o.exc = e.str("exc"); o.what = e.str("what"); o.ret = long(e.num("ret"));
+    o.calls = int(e.num("calls")); o.rep = int(e.num("rep")); o.h = int(e.num("h"));
+    o.sig = toints(e.ints("sig")); o.dyn = toints(e.ints("dyn")); o.tg = toints(e.ints("tg")); o.ids = toints(e.ints("ids"));
+    for (long long x : e.ints("xv")) o.xv.push_back(long(x));
+    o.xid = e.at("xid").b; o.psig = int(e.num("psig")); o.pobj = int(e.num("pobj"));
+    return o;
+}
+
+template <class F>
+static outcome guarded(F&& f, const char* quiet_error = nullptr)
+{
+    int fd[2];
+    if (::pipe(fd) != 0) { std::perror("pipe"); std::exit(4); }
+    std::fflush(stdout);
+    g_shm->calls = 0;
+    g_shm->rep = 0;
+    pid_t pid = ::fork();
+    if (pid < 0) { std::perror("fork"); std::exit(4); }
+    if (pid == 0)
+    {
+        ::close(fd[0]);
+        std::signal(SIGABRT, SIG_DFL);          // XTL_THROW -> std::abort(): the child dies of SIGABRT
+        std::set_terminate([]() { std::signal(SIGABRT, SIG_DFL); std::abort(); });
+        struct itimerval tv = {{0, 0}, {8, 0}};
+        std::signal(SIGVTALRM, SIG_DFL);
+        ::setitimer(ITIMER_VIRTUAL, &tv, nullptr);
+        int devnull = ::open("/dev/null", 1);   // the library's message goes to std::cerr
+        if (devnull >= 0) ::dup2(devnull, 2);
+        outcome o = guarded_here(f, quiet_error);
+        std::string s = wire(o);
+        ssize_t n = ::write(fd[1], s.data(), s.size());
+        (void)n;
+        ::_exit(0);
+    }
+    ::close(fd[1]);
+    std::string s;
+    char buf[4096];
+    for (;;)
+    {
+        ssize_t n = ::read(fd[0], buf, sizeof buf);
+        if (n <= 0) break;
+        s.append(buf, size_t(n));
+    }
+    ::close(fd[0]);
+    int st = 0;
+    ::waitpid(pid, &st, 0);
+    if (WIFEXITED(st) && WEXITSTATUS(st) == 0 && !s.empty()) return unwire(s);
+    if (WIFSIGNALED(st) && WTERMSIG(st) == SIGABRT)
+    {
+        outcome o;
+        o.exc = "abort";
+        o.what = "abort";
+        o.calls = g_shm->calls;
+        o.rep = g_shm->rep;
+        return o;
+    }
+    // anything else (sanitizer report, SIGSEGV, CPU limit) ends the trace
+    std::fflush(stdout);
+    if (!(WIFEXITED(st) && WEXITSTATUS(st) == 86)) vj::crash_line(WIFSIGNALED(st) && WTERMSIG(st) == SIGVTALRM ? "cpu-limit" : "child-died");
+    ::_exit(0);
+}
+#else
+template <class F>
+static outcome guarded(F&& f, const char* quiet_error = nullptr)
+{
+    return guarded_here(f, quiet_error);
+}
+#endif
+
+// ------------------------------------------------------------------ undispatched arguments
+struct xarg { int v; };
+inline void xrec(std::size_t) {}
+template <class... R> void xrec(std::size_t i, const xarg& x, R&... r);
+template <class... R> void xrec(std::size_t i, long& x, R&... r)
+{
+    g.xv.push_back(x);
+    if (i < 3 && g_xaddr[i] != static_cast<const void*>(&x)) g.xid = false;
+    xrec(i + 1, r...);
+}
+template <class... R> void xrec(std::size_t i, const xarg& x, R&... r)
+{
+    g.xv.push_back(x.v);
+    if (i < 3 && g_xaddr[i] != static_cast<const void*>(&x)) g.xid = false;
+    xrec(i + 1, r...);
+}
+
+#if C17_FUNCTOR
+template <std::size_t NX> struct xlist;
+template <> struct xlist<0> { using type = mpl::vector<>; };
+template <> struct xlist<1> { using type = mpl::vector<xarg>; };
+template <> struct xlist<2> { using type = mpl::vector<const xarg, long>; };
+template <> struct xlist<3> { using type = mpl::vector<xarg, const xarg, long>; };
+
+// handler registered by Insert<Ds...>(h): records what it was given
+template <class... Ds>
+struct handler_t
+{
+    int h;
+    template <class... X>
+    long operator()(Ds&... ds, X&... xs) const
+    {
+        note_call();
+        g.h = h;
+        g.raw = false;
+        g.sig = {cid_of<Ds>::value...};
+        g.dyn = {dyn_cid(ds)...};
+        g.tg = {ds.tag...};
+        g.addr = {dynamic_cast<const void*>(&ds)...};
+        g.xv.clear();
+        g.xid = true;
+        xrec(0, xs...);
+        long r = long(h) * 100;
+        for (long v : g.xv) r += v;
+        return r;
+    }
+};
+
+// user callback type for the backends used directly: receives base references and the extras.
+// Default-constructed (what an unregistered cell of the fast backend holds) it reports an error itself,
+// as an empty std::function does.
+struct raw_cb
+{
+    int h = 0;
+    std::vector<int> sig;
+
+    template <class BT> static auto rec(BT& b, std::size_t&) -> decltype(dyn_cid(b), void())
+    {
+        g.dyn.push_back(dyn_cid(b));
+        g.addr.push_back(dynamic_cast<const void*>(&b));
+    }
+    static void rec(const xarg& x, std::size_t& xi)
+    {
+        g.xv.push_back(x.v);
+        if (xi < 3 && g_xaddr[xi] != static_cast<const void*>(&x)) g.xid = false;
+        ++xi;
+    }
+    static void rec(long& x, std::size_t& xi)
+    {
+        g.xv.push_back(x);
+        if (xi < 3 && g_xaddr[xi] != static_cast<const void*>(&x)) g.xid = false;
+        ++xi;
+    }
+    template <class... Args>
+    long operator()(Args&... a) const
+    {
+        if (h == 0) throw empty_callback();
+        note_call();
+        g.h = h;
+        g.raw = true;
+        g.sig = sig;
+        g.dyn.clear(); g.addr.clear(); g.tg.clear(); g.xv.clear();
+        g.xid = true;
+        std::size_t xi = 0;
+        int dummy[] = {0, (rec(a, xi), 0)...};
+        (void)dummy;
+        long r = long(h) * 100;
+        for (long v : g.xv) r += v;
+        return r;
+    }
+};
 
 // ------------------------------------------------------------------ functor dispatchers
 struct imachine
 {
     virtual ~imachine() = default;
-    virtual void insert(const std::vector<long long>& t, int h) = 0;
+    virtual void insert(int slot, const std::vector<long long>& t, int h) = 0;
     virtual bool can_erase() const = 0;
-    virtual void erase(const std::vector<long long>& t) = 0;
-    virtual outcome dispatch(const std::vector<hz::Base*>& os, const std::vector<long long>& xs) = 0;
-    virtual std::size_t arity() const = 0;
-    virtual std::size_t nextra() const = 0;
+    virtual bool can_copy() const = 0;
+    virtual void erase(int slot, const std::vector<long long>& t) = 0;
+    virtual outcome dispatch(int slot, const std::vector<long long>& os, const std::vector<long long>& xs) = 0;
+    virtual void clone(const std::string& how) = 0;
+    virtual void take(const std::string& how) = 0;
+    virtual void drop2() = 0;
+    virtual bool has2() const = 0;
+    virtual std::vector<long long> indices() const = 0;
 };
 
 template <class T, std::size_t N, class... Acc> struct rep_vec : rep_vec<T, N - 1, T, Acc...> {};
@@ -292,170 +615,236 @@ auto has_erase_impl(int) -> decltype(std::declval<Bk&>().template erase<Ds...>()
 template <class Bk, class... Ds>
 std::false_type has_erase_impl(long);
 
-template <class BT, std::size_t N, std::size_t NX,
-          template <class, class> class Caster,
-          template <class, class, class, class> class Backend>
+template <template <class, class> class Caster, template <class, class, class, class> class Backend>
+struct functor_flavor
+{
+    template <class TL, class XL> using disp = xtl::functor_dispatcher<TL, long, XL, Caster, Backend>;
+    template <class TL, class XL> using probe = Backend<TL, long, XL, std::function<long()>>;
+    template <class... Ds, class D> static void insert(D& d, int h) { d.template insert<Ds...>(handler_t<Ds...>{h}); }
+};
+template <template <class, class, class, class> class Backend>
+struct raw_flavor
+{
+    template <class TL, class XL> using disp = Backend<TL, long, XL, raw_cb>;
+    template <class TL, class XL> using probe = Backend<TL, long, XL, raw_cb>;
+    template <class... Ds, class D> static void insert(D& d, int h) { d.template insert<Ds...>(raw_cb{h, {cid_of<Ds>::value...}}); }
+};
+
+template <class H, bool CB, std::size_t N, std::size_t NX, class Flavor>
 struct machine : imachine
 {
+    using HB = typename H::Base;
+    using BT = std::conditional_t<CB, const HB, HB>;
+    static constexpr int MaxK = N >= 3 ? 3 : 5;
     using tlist = typename rep_vec<BT, N>::type;
     using xl = typename xlist<NX>::type;
-    using disp_t = xtl::functor_dispatcher<tlist, long, xl, Caster, Backend>;
-    using backend_probe = Backend<tlist, long, xl, std::function<long()>>;
-    template <class T> using q = std::conditional_t<std::is_const<BT>::value, const T, T>;
+    using disp_t = typename Flavor::template disp<tlist, xl>;
+    using backend_probe = typename Flavor::template probe<tlist, xl>;
+    template <class T> using q = std::conditional_t<CB, const T, T>;
+    static constexpr bool copyable = std::is_copy_constructible<disp_t>::value && std::is_copy_assignable<disp_t>::value
+                                     && std::is_move_constructible<disp_t>::value && std::is_move_assignable<disp_t>::value;
 
-    disp_t d;
+    pool_t<H> pool;
+    std::unique_ptr<disp_t> d[2];
 
-    std::size_t arity() const override { return N; }
-    std::size_t nextra() const override { return NX; }
+    machine() { d[0].reset(new disp_t()); }
+
+    disp_t& at(int slot)
+    {
+        if (slot < 1 || slot > 2 || !d[slot - 1]) bad_script("no dispatcher object in slot", slot);
+        return *d[slot - 1];
+    }
+    bool has2() const override { return bool(d[1]); }
+    std::vector<long long> indices() const override { return H::indices(); }
 
     // ---- insert<D...>(handler)
     template <std::size_t Rem, class... Ds>
     struct inserter
     {
-        static void go(machine& m, const long long* t, int h)
+        static void go(disp_t& dd, const long long* t, int h)
         {
-            hz::with_class(int(*t), [&](auto c) {
+            H::template with_class<MaxK>(int(*t), [&](auto c) {
                 using T = q<typename decltype(c)::type>;
-                inserter<Rem - 1, Ds..., T>::go(m, t + 1, h);
+                inserter<Rem - 1, Ds..., T>::go(dd, t + 1, h);
             });
         }
     };
     template <class... Ds>
     struct inserter<0, Ds...>
     {
-        static void go(machine& m, const long long*, int h)
-        {
-            m.d.template insert<Ds...>(handler_t<Ds...>{h});
-        }
+        static void go(disp_t& dd, const long long*, int h) { Flavor::template insert<Ds...>(dd, h); }
     };
-    void insert(const std::vector<long long>& t, int h) override
+    void insert(int slot, const std::vector<long long>& t, int h) override
     {
-        if (t.size() != N) { std::fprintf(stderr, "script: tuple length\n"); std::exit(3); }
-        inserter<N>::go(*this, t.data(), h);
+        if (t.size() != N) bad_script("tuple length", (long long)t.size());
+        inserter<N>::go(at(slot), t.data(), h);
     }
 
     // ---- erase<D...>()  (only where the backend has one)
     template <class... Ds> using has_erase = decltype(has_erase_impl<backend_probe, Ds...>(0));
-    template <class... Ds> static void do_erase(machine& m, std::true_type) { m.d.template erase<Ds...>(); }
-    template <class... Ds> static void do_erase(machine&, std::false_type)
-    {
-        std::fprintf(stderr, "script: erase is not available for this dispatcher\n");
-        std::exit(3);
-    }
+    template <class... Ds> static void do_erase(disp_t& dd, std::true_type) { dd.template erase<Ds...>(); }
+    template <class... Ds> static void do_erase(disp_t&, std::false_type) { bad_script("erase is not available for this dispatcher"); }
     template <std::size_t Rem, class... Ds>
     struct eraser
     {
-        static void go(machine& m, const long long* t)
+        static void go(disp_t& dd, const long long* t)
         {
-            hz::with_class(int(*t), [&](auto c) {
+            H::template with_class<MaxK>(int(*t), [&](auto c) {
                 using T = q<typename decltype(c)::type>;
-                eraser<Rem - 1, Ds..., T>::go(m, t + 1);
+                eraser<Rem - 1, Ds..., T>::go(dd, t + 1);
             });
         }
     };
     template <class... Ds>
     struct eraser<0, Ds...>
     {
-        static void go(machine& m, const long long*) { do_erase<Ds...>(m, has_erase<Ds...>()); }
+        static void go(disp_t& dd, const long long*) { do_erase<Ds...>(dd, has_erase<Ds...>()); }
     };
     template <std::size_t, class T> struct always_t { using type = T; };
     template <std::size_t... I> static bool erase_probe(std::index_sequence<I...>)
     {
-        return has_erase<typename always_t<I, q<hz::A>>::type...>::value;
+        return has_erase<typename always_t<I, q<HB>>::type...>::value;
     }
     bool can_erase() const override { return erase_probe(std::make_index_sequence<N>()); }
-    void erase(const std::vector<long long>& t) override
+    bool can_copy() const override { return copyable; }
+    void erase(int slot, const std::vector<long long>& t) override
     {
-        if (t.size() != N) { std::fprintf(stderr, "script: tuple length\n"); std::exit(3); }
-        eraser<N>::go(*this, t.data());
+        if (t.size() != N) bad_script("tuple length", (long long)t.size());
+        eraser<N>::go(at(slot), t.data());
     }
+
+    // ---- copies (only where the dispatcher type is copyable and movable: not part of the property)
+    void clone_impl(const std::string& how, std::true_type)
+    {
+        if (how == "ctor") d[1].reset(new disp_t(*d[0]));
+        else if (how == "assign") at(2) = *d[0];
+        else bad_script("unknown kind of Clone");
+    }
+    void take_impl(const std::string& how, std::true_type)
+    {
+        if (how == "self") { disp_t& r = *d[0]; *d[0] = r; return; }
+        disp_t& src = at(2);
+        if (how == "copy") *d[0] = src;
+        else if (how == "copyctor") { std::unique_ptr<disp_t> p(new disp_t(src)); d[0] = std::move(p); }
+        else if (how == "move") { *d[0] = std::move(src); d[1].reset(); }
+        else if (how == "movector") { std::unique_ptr<disp_t> p(new disp_t(std::move(src))); d[0] = std::move(p); d[1].reset(); }
+        else if (how == "swap") { using std::swap; swap(*d[0], src); }
+        else bad_script("unknown kind of Take");
+    }
+    void clone_impl(const std::string&, std::false_type) { bad_script("this dispatcher type is not copyable"); }
+    void take_impl(const std::string&, std::false_type) { bad_script("this dispatcher type is not copyable"); }
+    void clone(const std::string& how) override { clone_impl(how, std::integral_constant<bool, copyable>()); }
+    void take(const std::string& how) override { take_impl(how, std::integral_constant<bool, copyable>()); }
+    void drop2() override { at(2); d[1].reset(); }
 
     // ---- dispatch(args..., extras...)
     template <std::size_t... I>
-    long call(std::index_sequence<I...>, BT* const* o, xarg&, long&, std::integral_constant<std::size_t, 0>)
+    static long call(const disp_t& dd, std::index_sequence<I...>, BT* const* o, xarg&, xarg&, long&, std::integral_constant<std::size_t, 0>)
     {
-        return d.dispatch(*o[I]...);
+        return dd.dispatch(*o[I]...);
     }
     template <std::size_t... I>
-    long call(std::index_sequence<I...>, BT* const* o, xarg& x1, long&, std::integral_constant<std::size_t, 1>)
+    static long call(const disp_t& dd, std::index_sequence<I...>, BT* const* o, xarg& x1, xarg&, long&, std::integral_constant<std::size_t, 1>)
     {
-        return d.dispatch(*o[I]..., x1);
+        return dd.dispatch(*o[I]..., x1);
     }
     template <std::size_t... I>
-    long call(std::index_sequence<I...>, BT* const* o, xarg& x1, long& x2, std::integral_constant<std::size_t, 2>)
+    static long call(const disp_t& dd, std::index_sequence<I...>, BT* const* o, xarg& x1, xarg&, long& x3, std::integral_constant<std::size_t, 2>)
     {
-        return d.dispatch(*o[I]..., x1, x2);
+        return dd.dispatch(*o[I]..., x1, x3);
     }
-    outcome dispatch(const std::vector<hz::Base*>& os, const std::vector<long long>& xs) override
+    template <std::size_t... I>
+    static long call(const disp_t& dd, std::index_sequence<I...>, BT* const* o, xarg& x1, xarg& x2, long& x3, std::integral_constant<std::size_t, 3>)
     {
-        if (os.size() != N || xs.size() != NX) { std::fprintf(stderr, "script: dispatch arity\n"); std::exit(3); }
+        return dd.dispatch(*o[I]..., x1, x2, x3);
+    }
+    outcome dispatch(int slot, const std::vector<long long>& os, const std::vector<long long>& xs) override
+    {
+        if (os.size() != N || xs.size() != NX) bad_script("dispatch arity", (long long)os.size());
         BT* o[N];
-        for (std::size_t i = 0; i < N; ++i) o[i] = os[i];
+        for (std::size_t i = 0; i < N; ++i) o[i] = pool.get(os[i]);
+        // nx = 1: (xarg) ; nx = 2: (const xarg, long) ; nx = 3: (xarg, const xarg, long)
         xarg x1{NX > 0 ? int(xs[0]) : 0};
-        long x2 = NX > 1 ? long(xs[1]) : 0;
+        xarg x2{NX > 2 ? int(xs[1]) : 0};
+        long x3 = NX == 2 ? long(xs[1]) : NX == 3 ? long(xs[2]) : 0;
         g_xaddr[0] = &x1;
-        g_xaddr[1] = &x2;
-        return guarded([&]() { return call(std::make_index_sequence<N>(), o, x1, x2, std::integral_constant<std::size_t, NX>()); });
+        g_xaddr[1] = NX == 2 ? static_cast<const void*>(&x3) : static_cast<const void*>(&x2);
+        g_xaddr[2] = &x3;
+        g_lookup = [this](const void* p) { return pool.find(p); };
+        const disp_t& dd = at(slot);
+        return guarded([&]() { return call(dd, std::make_index_sequence<N>(), o, x1, x2, x3, std::integral_constant<std::size_t, NX>()); });
     }
 };
 
-template <template <class, class> class Caster, template <class, class, class, class> class Backend>
+template <class H, class Flavor>
 static imachine* make_kind(int ar, int nx)
 {
     // nx = 0: const base (as the upstream tests do); nx > 0: non-const base
 #if C17_AR == 0 || C17_AR == 12
-    if (ar == 1 && nx == 0) return new machine<const hz::Base, 1, 0, Caster, Backend>();
-    if (ar == 1 && nx == 1) return new machine<hz::Base, 1, 1, Caster, Backend>();
-    if (ar == 2 && nx == 0) return new machine<const hz::Base, 2, 0, Caster, Backend>();
-    if (ar == 2 && nx == 1) return new machine<hz::Base, 2, 1, Caster, Backend>();
-    if (ar == 2 && nx == 2) return new machine<hz::Base, 2, 2, Caster, Backend>();
+    if (ar == 1 && nx == 0) return new machine<H, true, 1, 0, Flavor>();
+    if (ar == 2 && nx == 1) return new machine<H, false, 2, 1, Flavor>();
+#if !C17_SMALL
+    if (ar == 1 && nx == 1) return new machine<H, false, 1, 1, Flavor>();
+    if (ar == 1 && nx == 3) return new machine<H, false, 1, 3, Flavor>();
+    if (ar == 2 && nx == 0) return new machine<H, true, 2, 0, Flavor>();
+    if (ar == 2 && nx == 2) return new machine<H, false, 2, 2, Flavor>();
+#endif
 #endif
 #if C17_AR == 0 || C17_AR == 3
-    if (ar == 3 && nx == 0) return new machine<const hz::Base, 3, 0, Caster, Backend>();
-    if (ar == 3 && nx == 1) return new machine<hz::Base, 3, 1, Caster, Backend>();
+    if (ar == 3 && nx == 0) return new machine<H, true, 3, 0, Flavor>();
+    if (ar == 3 && nx == 1) return new machine<H, false, 3, 1, Flavor>();
 #endif
-    std::fprintf(stderr, "script: unsupported arity/extras %d/%d\n", ar, nx);
-    std::exit(3);
+    bad_script("unsupported arity/extras in this build", ar * 10 + nx);
 }
 
 static imachine* make_machine(const std::string& kind, int ar, int nx)
 {
-#if C17_KIND == 0 || C17_KIND == 1
-    if (kind == "map_dyn") return make_kind<xtl::dynamic_caster, xtl::basic_dispatcher>(ar, nx);
+#if C17_HAS(1)
+    if (kind == "map_dyn") return make_kind<HZ, functor_flavor<xtl::dynamic_caster, xtl::basic_dispatcher>>(ar, nx);
 #endif
-#if C17_KIND == 0 || C17_KIND == 2
-    if (kind == "map_static") return make_kind<xtl::static_caster, xtl::basic_dispatcher>(ar, nx);
+#if C17_HAS(2)
+    if (kind == "map_static") return make_kind<HZ, functor_flavor<xtl::static_caster, xtl::basic_dispatcher>>(ar, nx);
 #endif
-#if C17_KIND == 0 || C17_KIND == 3
-    if (kind == "fast_dyn") return make_kind<xtl::dynamic_caster, xtl::basic_fast_dispatcher>(ar, nx);
+#if C17_HAS(3)
+    if (kind == "fast_dyn") return make_kind<HZ, functor_flavor<xtl::dynamic_caster, xtl::basic_fast_dispatcher>>(ar, nx);
 #endif
-#if C17_KIND == 0 || C17_KIND == 4
-    if (kind == "fast_static") return make_kind<xtl::static_caster, xtl::basic_fast_dispatcher>(ar, nx);
+#if C17_HAS(4)
+    if (kind == "fast_static") return make_kind<HZ, functor_flavor<xtl::static_caster, xtl::basic_fast_dispatcher>>(ar, nx);
 #endif
-    if (kind == "none") return nullptr;
+#if C17_HAS(7)
+    if (kind == "raw_map") return make_kind<HZ, raw_flavor<xtl::basic_dispatcher>>(ar, nx);
+    if (kind == "raw_fast") return make_kind<HZ, raw_flavor<xtl::basic_fast_dispatcher>>(ar, nx);
+#endif
+#if C17_HAS(8)
+    if (kind == "vmap_dyn") return make_kind<HV, functor_flavor<xtl::dynamic_caster, xtl::basic_dispatcher>>(ar, nx);
+    if (kind == "vfast_dyn") return make_kind<HV, functor_flavor<xtl::dynamic_caster, xtl::basic_fast_dispatcher>>(ar, nx);
+#endif
     std::fprintf(stderr, "script: dispatcher kind %s not compiled into this driver\n", kind.c_str());
     std::exit(3);
 }
+#endif  // C17_FUNCTOR
 
 // ------------------------------------------------------------------ static dispatcher
+#if C17_STATIC
 struct exec_t
 {
     template <class T1, class T2>
     long run(T1& a, T2& b)
     {
-        ++g.calls;
+        note_call();
         g.h = 0;
-        g.sig = {hz::cid_of<T1>::value, hz::cid_of<T2>::value};
+        g.raw = false;
+        g.sig = {cid_of<T1>::value, cid_of<T2>::value};
         g.dyn = {hz::dyn_cid(a), hz::dyn_cid(b)};
         g.tg = {a.tag, b.tag};
         g.addr = {dynamic_cast<const void*>(&a), dynamic_cast<const void*>(&b)};
         g.xv.clear();
         g.xid = true;
-        return 1000 + 10 * hz::cid_of<T1>::value + hz::cid_of<T2>::value;
+        return 1000 + 10 * cid_of<T1>::value + cid_of<T2>::value;
     }
     long on_error(const hz::Base&, const hz::Base&)
     {
-        ++g.rep;
+        note_rep();
         return 7;
     }
 };
@@ -466,52 +855,64 @@ struct sd_entry
 {
     std::vector<int> lhs, rhs;
     bool sym, cst;
+    std::string cv;      // "same": both sides const (cst) or both mutable; "mixed": const lhs base and list, mutable rhs base and list
     long (*fn)(hz::Base&, hz::Base&, exec_t&);
 };
 
-template <bool Cst, bool Sym, class L, class R> struct sd_cfg;
-template <bool Cst, bool Sym, class... L, class... R>
-struct sd_cfg<Cst, Sym, tl<L...>, tl<R...>>
+template <bool CstL, bool CstR, bool Sym, class L, class R> struct sd_cfg;
+template <bool CstL, bool CstR, bool Sym, class... L, class... R>
+struct sd_cfg<CstL, CstR, Sym, tl<L...>, tl<R...>>
 {
-    using BT = std::conditional_t<Cst, const hz::Base, hz::Base>;
-    template <class T> using q = std::conditional_t<Cst, const T, T>;
-    using disp = xtl::static_dispatcher<exec_t, BT, mpl::vector<q<L>...>, long,
+    using BL = std::conditional_t<CstL, const hz::Base, hz::Base>;
+    using BR = std::conditional_t<CstR, const hz::Base, hz::Base>;
+    template <class T> using ql = std::conditional_t<CstL, const T, T>;
+    template <class T> using qr = std::conditional_t<CstR, const T, T>;
+    using disp = xtl::static_dispatcher<exec_t, BL, mpl::vector<ql<L>...>, long,
                                         std::conditional_t<Sym, xtl::symmetric_dispatch, xtl::antisymmetric_dispatch>,
-                                        BT, mpl::vector<q<R>...>>;
+                                        BR, mpl::vector<qr<R>...>>;
     static long run(hz::Base& a, hz::Base& b, exec_t& e)
     {
-        BT& x = a;
-        BT& y = b;
+        BL& x = a;
+        BR& y = b;
         return disp::dispatch(x, y, e);
     }
-    static sd_entry entry() { return sd_entry{{hz::cid_of<L>::value...}, {hz::cid_of<R>::value...}, Sym, Cst, &run}; }
+    static sd_entry entry() { return sd_entry{{cid_of<L>::value...}, {cid_of<R>::value...}, Sym, CstL, CstL == CstR ? "same" : "mixed", &run}; }
 };
 
 static std::vector<sd_entry> static_menu()
 {
     using namespace hz;
     std::vector<sd_entry> m;
-    m.push_back(sd_cfg<true, false, tl<A, B, C>, tl<A, B, C>>::entry());
-    m.push_back(sd_cfg<true, true, tl<A, B, C>, tl<A, B, C>>::entry());
-    m.push_back(sd_cfg<false, true, tl<C, A, B>, tl<C, A, B>>::entry());
-    m.push_back(sd_cfg<false, false, tl<B, A>, tl<C, B>>::entry());
-    m.push_back(sd_cfg<true, false, tl<D, A, B, C, Base>, tl<D, A, B, C, Base>>::entry());
-    m.push_back(sd_cfg<false, true, tl<D, A, B, C, Base>, tl<D, A, B, C, Base>>::entry());
-    m.push_back(sd_cfg<false, false, tl<D, B>, tl<C>>::entry());
-    m.push_back(sd_cfg<true, true, tl<B, D, A>, tl<B, D, A>>::entry());
-    m.push_back(sd_cfg<false, false, tl<C, B, A>, tl<A, B, C>>::entry());
+    m.push_back(sd_cfg<true, true, false, tl<A, B, C>, tl<A, B, C>>::entry());
+    m.push_back(sd_cfg<true, true, true, tl<A, B, C>, tl<A, B, C>>::entry());
+    m.push_back(sd_cfg<false, false, true, tl<C, A, B>, tl<C, A, B>>::entry());
+    m.push_back(sd_cfg<false, false, false, tl<B, A>, tl<C, B>>::entry());
+    m.push_back(sd_cfg<true, true, false, tl<D, A, B, C, Base>, tl<D, A, B, C, Base>>::entry());
+    m.push_back(sd_cfg<false, false, true, tl<D, A, B, C, Base>, tl<D, A, B, C, Base>>::entry());
+    m.push_back(sd_cfg<false, false, false, tl<D, B>, tl<C>>::entry());
+    m.push_back(sd_cfg<true, true, true, tl<B, D, A>, tl<B, D, A>>::entry());
+    m.push_back(sd_cfg<false, false, false, tl<C, B, A>, tl<A, B, C>>::entry());
+    m.push_back(sd_cfg<true, true, false, tl<A, Base>, tl<B, Base>>::entry());
+    m.push_back(sd_cfg<false, false, true, tl<B, A, Base>, tl<B, A, Base>>::entry());
+    // lists parallel but differently cv-qualified: read-only left operand, mutable right operand
+    m.push_back(sd_cfg<true, false, true, tl<A, B, C>, tl<A, B, C>>::entry());
+    m.push_back(sd_cfg<true, false, false, tl<A, B, C>, tl<A, B, C>>::entry());
+    m.push_back(sd_cfg<true, false, true, tl<C, A, B, Base>, tl<C, A, B, Base>>::entry());
     return m;
 }
+#endif  // C17_STATIC
 
 // ------------------------------------------------------------------ acyclic visitors
+#if C17_VISIT
 template <class R> struct retv { static R make(long v) { return R(v); } };
 template <> struct retv<void> { static void make(long) {} };
 
 template <class R, class T>
 R on_visit(int sig, T& x)
 {
-    ++g.calls;
+    note_call();
     g.h = 0;
+    g.raw = false;
     g.sig = {sig};
     g.dyn = {x.dynid()};
     g.tg = {x.tag};
@@ -526,7 +927,7 @@ struct recording_catch_all
 {
     static R on_unknown_visitor(T& t, xtl::base_visitor&)
     {
-        ++g.rep;
+        note_rep();
         g.psig = std::remove_const_t<T>::id;
         g.pobj = t.tag;
         return retv<R>::make(999);
@@ -535,11 +936,12 @@ struct recording_catch_all
 
 struct vis_entry
 {
-    std::vector<int> set;
+    const char* name;
     xtl::base_visitor* v;
 };
 
 // One complete hierarchy + visitor menu per variant of base_visitable (the root type differs).
+// CQ is the constness the hierarchy's visitors take their argument with, NCQ the other one.
 #define C17_VCLASS(NAME, PARENT, ID, DEFV)                                             \
     struct NAME : PARENT                                                               \
     {                                                                                  \
@@ -550,7 +952,7 @@ struct vis_entry
         int tag;                                                                       \
     };
 
-#define C17_VHIER(NS, RT, CONSTFLAG, CQ, POLICY, DEFV)                                  \
+#define C17_VHIER(NS, RT, CONSTFLAG, CQ, NCQ, POLICY, DEFV)                             \
     namespace NS                                                                        \
     {                                                                                   \
         using root_t = xtl::base_visitable<RT, CONSTFLAG, POLICY>;                       \
@@ -591,10 +993,27 @@ struct vis_entry
             RT visit(CQ VBase& x) override { return on_visit<RT>(4, x); }               \
             RT visit(CQ VD& x) override { return on_visit<RT>(5, x); }                  \
         };                                                                              \
+        /* several visitor<T> bases named one by one, base_visitor last */              \
+        struct Vis_Sep : xtl::visitor<VB, RT, CONSTFLAG>, xtl::visitor<VC, RT, CONSTFLAG>, xtl::base_visitor \
+        {                                                                               \
+            RT visit(CQ VB& x) override { return on_visit<RT>(2, x); }                  \
+            RT visit(CQ VC& x) override { return on_visit<RT>(3, x); }                  \
+        };                                                                              \
+        /* a visitor hierarchy: derives from another visitor and adds a class */        \
+        struct Vis_Derived : Vis_AB, xtl::visitor<VD, RT, CONSTFLAG>                     \
+        {                                                                               \
+            RT visit(CQ VD& x) override { return on_visit<RT>(5, x); }                  \
+        };                                                                              \
+        /* visits A and B with the other constness: no visitor of this hierarchy */    \
+        struct Vis_WrongConst : xtl::base_visitor, xtl::visitor<mpl::vector<VA, VB>, RT, !CONSTFLAG> \
+        {                                                                               \
+            RT visit(NCQ VA& x) override { return on_visit<RT>(1, x); }                 \
+            RT visit(NCQ VB& x) override { return on_visit<RT>(2, x); }                 \
+        };                                                                              \
         struct world                                                                    \
         {                                                                               \
             VBase* o[6][2];                                                             \
-            Vis_AB v1; Vis_All v2; Vis_C v3; Vis_None v4; Vis_BaseD v5;                 \
+            Vis_AB v1; Vis_All v2; Vis_C v3; Vis_None v4; Vis_BaseD v5; Vis_Sep v6; Vis_Derived v7; Vis_WrongConst v8; \
             std::vector<vis_entry> menu;                                                \
             world()                                                                     \
             {                                                                           \
@@ -604,7 +1023,8 @@ struct vis_entry
                     o[1][n] = new VA(10 + n); o[2][n] = new VB(20 + n); o[3][n] = new VC(30 + n); \
                     o[4][n] = new VBase(40 + n); o[5][n] = new VD(50 + n);              \
                 }                                                                       \
-                menu = {{{1, 2}, &v1}, {{1, 2, 3, 4, 5}, &v2}, {{3}, &v3}, {{}, &v4}, {{4, 5}, &v5}}; \
+                menu = {{"AB", &v1}, {"All", &v2}, {"C", &v3}, {"None", &v4}, {"BaseD", &v5}, \
+                        {"Sep", &v6}, {"Derived", &v7}, {"WrongConst", &v8}};          \
             }                                                                           \
             ~world() { for (int c = 1; c < 6; ++c) for (int n = 0; n < 2; ++n) delete o[c][n]; } \
             int find(const void* p) const                                               \
@@ -626,25 +1046,25 @@ struct vis_entry
     }
 
 #define C17_NOCONST
-C17_VHIER(v_default, long, false, C17_NOCONST, xtl::default_catch_all, XTL_DEFINE_VISITABLE)
-C17_VHIER(v_throwing, long, false, C17_NOCONST, xtl::throwing_catch_all, XTL_DEFINE_VISITABLE)
-C17_VHIER(v_cdefault, long, true, const, xtl::default_catch_all, XTL_DEFINE_CONST_VISITABLE)
-C17_VHIER(v_crecording, long, true, const, recording_catch_all, XTL_DEFINE_CONST_VISITABLE)
-C17_VHIER(v_recording, long, false, C17_NOCONST, recording_catch_all, XTL_DEFINE_VISITABLE)
-C17_VHIER(v_void, void, false, C17_NOCONST, xtl::throwing_catch_all, XTL_DEFINE_VISITABLE)
+C17_VHIER(v_default, long, false, C17_NOCONST, const, xtl::default_catch_all, XTL_DEFINE_VISITABLE)
+C17_VHIER(v_throwing, long, false, C17_NOCONST, const, xtl::throwing_catch_all, XTL_DEFINE_VISITABLE)
+C17_VHIER(v_cdefault, long, true, const, C17_NOCONST, xtl::default_catch_all, XTL_DEFINE_CONST_VISITABLE)
+C17_VHIER(v_crecording, long, true, const, C17_NOCONST, recording_catch_all, XTL_DEFINE_CONST_VISITABLE)
+C17_VHIER(v_recording, long, false, C17_NOCONST, const, recording_catch_all, XTL_DEFINE_VISITABLE)
+C17_VHIER(v_void, void, false, C17_NOCONST, const, xtl::throwing_catch_all, XTL_DEFINE_VISITABLE)
 
 // ------------------------------------------------------------------ cyclic visitors
-#define C17_CYC(NS, CONSTFLAG, CQ, DEFC)                                                \
+#define C17_CYC(NS, RT, CONSTFLAG, CQ, DEFC)                                            \
     namespace NS                                                                        \
     {                                                                                   \
         struct CBase; struct CA; struct CB; struct CC; struct CD;                       \
-        struct visitor_t : xtl::cyclic_visitor<mpl::vector<CA, CB, CC, CBase, CD>, long, CONSTFLAG> \
+        struct visitor_t : xtl::cyclic_visitor<mpl::vector<CA, CB, CC, CBase, CD>, RT, CONSTFLAG> \
         {                                                                               \
-            long visit(CQ CA& x) override;                                              \
-            long visit(CQ CB& x) override;                                              \
-            long visit(CQ CC& x) override;                                              \
-            long visit(CQ CBase& x) override;                                           \
-            long visit(CQ CD& x) override;                                              \
+            RT visit(CQ CA& x) override;                                                \
+            RT visit(CQ CB& x) override;                                                \
+            RT visit(CQ CC& x) override;                                                \
+            RT visit(CQ CBase& x) override;                                             \
+            RT visit(CQ CD& x) override;                                                \
         };                                                                              \
         struct CBase                                                                    \
         {                                                                               \
@@ -658,11 +1078,11 @@ C17_VHIER(v_void, void, false, C17_NOCONST, xtl::throwing_catch_all, XTL_DEFINE_
         struct CB : CBase { explicit CB(int t = 0) : CBase(0), tag(t) {} DEFC(visitor_t) int dynid() const override { return 2; } int tag; }; \
         struct CC : CBase { explicit CC(int t = 0) : CBase(0), tag(t) {} DEFC(visitor_t) int dynid() const override { return 3; } int tag; }; \
         struct CD : CA { explicit CD(int t = 0) : CA(0), tag(t) {} DEFC(visitor_t) int dynid() const override { return 5; } int tag; }; \
-        long visitor_t::visit(CQ CA& x) { return on_visit<long>(1, x); }                \
-        long visitor_t::visit(CQ CB& x) { return on_visit<long>(2, x); }                \
-        long visitor_t::visit(CQ CC& x) { return on_visit<long>(3, x); }                \
-        long visitor_t::visit(CQ CBase& x) { return on_visit<long>(4, x); }             \
-        long visitor_t::visit(CQ CD& x) { return on_visit<long>(5, x); }                \
+        RT visitor_t::visit(CQ CA& x) { return on_visit<RT>(1, x); }                    \
+        RT visitor_t::visit(CQ CB& x) { return on_visit<RT>(2, x); }                    \
+        RT visitor_t::visit(CQ CC& x) { return on_visit<RT>(3, x); }                    \
+        RT visitor_t::visit(CQ CBase& x) { return on_visit<RT>(4, x); }                 \
+        RT visitor_t::visit(CQ CD& x) { return on_visit<RT>(5, x); }                    \
         struct world                                                                    \
         {                                                                               \
             CBase* o[6][2];                                                             \
@@ -683,26 +1103,50 @@ C17_VHIER(v_void, void, false, C17_NOCONST, xtl::throwing_catch_all, XTL_DEFINE_
                     if (dynamic_cast<const void*>(o[c][n]) == p) return 10 * c + n;     \
                 return 0;                                                               \
             }                                                                           \
-            long accept(long long oid) { CQ CBase& r = *o[oid / 10][oid % 10]; return r.accept(v); } \
+            long vret = 0;                                                              \
+            template <class Q> void call_accept(Q& r, std::false_type) { vret = long(r.accept(v)); } \
+            template <class Q> void call_accept(Q& r, std::true_type) { r.accept(v); vret = 0; } \
+            long accept(long long oid) { CQ CBase& r = *o[oid / 10][oid % 10]; call_accept(r, std::is_void<RT>()); return vret; } \
         };                                                                              \
     }
 
-C17_CYC(cyc_mut, false, C17_NOCONST, XTL_DEFINE_CYCLIC_VISITABLE)
-C17_CYC(cyc_const, true, const, XTL_DEFINE_CONST_CYCLIC_VISITABLE)
+C17_CYC(cyc_mut, long, false, C17_NOCONST, XTL_DEFINE_CYCLIC_VISITABLE)
+C17_CYC(cyc_const, long, true, const, XTL_DEFINE_CONST_CYCLIC_VISITABLE)
+C17_CYC(cyc_vmut, void, false, C17_NOCONST, XTL_DEFINE_CYCLIC_VISITABLE)
+C17_CYC(cyc_vconst, void, true, const, XTL_DEFINE_CONST_CYCLIC_VISITABLE)
+#endif  // C17_VISIT
 
 // ------------------------------------------------------------------ interpreter
 static void check_oid(long long oid)
 {
     long long c = oid / 10, n = oid % 10;
-    if (c < 1 || c > 5 || n < 0 || n > 1) { std::fprintf(stderr, "script: bad object id %lld\n", oid); std::exit(3); }
+    if (c < 1 || c > 5 || n < 0 || n > 1) bad_script("bad object id", oid);
+}
+
+static void arm_cpu_limit()
+{
+    // a call that does not return: the trace ends with a Crash event (no spec action matches it)
+    struct itimerval tv = {{0, 0}, {10, 0}};
+    ::setitimer(ITIMER_VIRTUAL, &tv, nullptr);
+}
+static void on_cpu_limit(int)
+{
+    std::fflush(stdout);
+    vj::crash_line("cpu-limit");
+    _exit(0);
 }
 
 struct interp
 {
-    hz::pool_t pool;
+#if C17_FUNCTOR
     std::unique_ptr<imachine> m;
+#endif
     int k = 1, ar = 1, nx = 0;
+#if C17_STATIC
+    pool_t<HZ> spool;
     std::vector<sd_entry> smenu = static_menu();
+#endif
+#if C17_VISIT
     v_default::world w_default;
     v_throwing::world w_throwing;
     v_cdefault::world w_cdefault;
@@ -711,55 +1155,82 @@ struct interp
     v_void::world w_void;
     cyc_mut::world w_cyc;
     cyc_const::world w_ccyc;
+    cyc_vmut::world w_vcyc;
+    cyc_vconst::world w_vccyc;
+#endif
     std::string what;
+    bool first_reset = true;
 
     static std::vector<int> toint(const std::vector<long long>& v) { return std::vector<int>(v.begin(), v.end()); }
 
+#if C17_VISIT
     template <class W>
-    outcome accept_in(W& w, const std::vector<int>& set, long long oid, const char* quiet)
+    outcome accept_in(W& w, const std::string& name, long long oid, const char* quiet)
     {
         check_oid(oid);
         g_lookup = [&w](const void* p) { return w.find(p); };
         for (auto& e : w.menu)
-            if (e.set == set)
+            if (name == e.name)
             {
                 xtl::base_visitor& v = *e.v;
                 return guarded([&]() { return w.accept(oid, v); }, quiet);
             }
-        std::fprintf(stderr, "script: no visitor with that set of visited classes\n");
-        std::exit(3);
+        bad_script("no visitor of that name");
     }
+    template <class W>
+    outcome cyclic_in(W& w, long long oid)
+    {
+        g_lookup = [&w](const void* p) { return w.find(p); };
+        return guarded_here([&]() { return w.accept(oid); }, "catch_all");
+    }
+#endif
 
-    std::string cell(const std::vector<hz::Base*>& os)
+#if C17_FUNCTOR
+    std::string cell(int slot, const std::vector<long long>& os)
     {
         std::vector<long long> xs;
         for (int i = 0; i < nx; ++i) xs.push_back(i + 1);
-        g_lookup = [this](const void* p) { return pool.find(p); };
-        outcome o = m->dispatch(os, xs);
+        outcome o = m->dispatch(slot, os, xs);
         vj::out c;
-        bool ok = std::string(o.exc) == "none";
-        c.kv("h", ok ? o.r.h : 0);
-        c.kints("objs", ok ? ids_of(o.r.addr) : std::vector<int>());
+        bool ok = o.exc == "none";
+        c.kv("h", ok ? o.h : 0);
+        c.kints("objs", ok ? o.ids : std::vector<int>());
         return c.obj();
     }
-    std::string table(std::size_t level, std::vector<hz::Base*>& os)
+    std::string table(int slot, std::size_t level, std::vector<long long>& os)
     {
-        if (level == std::size_t(ar)) return cell(os);
+        if (level == std::size_t(ar)) return cell(slot, os);
         std::string s = "[";
         for (int c = 1; c <= k; ++c)
         {
             if (c > 1) s += ',';
-            os.push_back(pool.o[c][0]);
-            s += table(level + 1, os);
+            os.push_back(10 * c);
+            s += table(slot, level + 1, os);
             os.pop_back();
         }
         return s + "]";
     }
+#endif
     std::string state()
     {
-        if (!m) return "{\"tab\":[]}";
-        std::vector<hz::Base*> os;
-        return "{\"tab\":" + table(0, os) + "}";
+#if C17_FUNCTOR
+        if (m)
+        {
+            std::vector<long long> os;
+            std::string s = "{\"tab\":" + table(1, 0, os) + ",\"tab2\":";
+            s += m->has2() ? table(2, 0, os) : std::string("[]");
+            return s + "}";
+        }
+#endif
+        return "{\"tab\":[],\"tab2\":[]}";
+    }
+    std::string l2()
+    {
+        std::vector<long long> idx = {255, 255, 255, 255, 255};
+#if C17_FUNCTOR
+        if (m) idx = m->indices();
+#endif
+        return "{\"idx\":" + vj::ints(idx) + ",\"what\":\"" + what + "\"}";
     }
 
     std::string step(const vj::value& e)
@@ -767,73 +1238,87 @@ struct interp
         const std::string& op = e.str("op");
         const vj::value& a = e.at("a");
         what.clear();
+        const char* VOID = "{\"exc\":\"none\",\"val\":[]}";
         if (op == "Reset")
         {
-            m.reset();
-            hz::reset_indices();
             k = int(a.num("k"));
             ar = int(a.num("ar"));
             nx = int(a.num("nx"));
-            if (k < 1 || k > 5) { std::fprintf(stderr, "script: bad k\n"); std::exit(3); }
-            m.reset(make_machine(a.str("kind"), ar, nx));
-            return "{\"exc\":\"none\",\"val\":[]}";
+            if (k < 1 || k > 5) bad_script("bad k", k);
+            std::string fl = a.has("fl") ? a.str("fl") : std::string("exc");
+            if ((fl == "noexc") != bool(C17_FORK)) bad_script("the script's build flavour is not this driver's");
+            const std::string& kind = a.str("kind");
+#if C17_FUNCTOR
+            m.reset();
+            // one fast dispatcher per hierarchy at a time: later executions of a process start from fresh class
+            // indices (public accessor); the first execution of a process uses the indices as the library
+            // initialised them
+            if (!first_reset)
+            {
+                HZ::reset_indices();
+#if C17_HAS(8)
+                HV::reset_indices();
+#endif
+            }
+            first_reset = false;
+            if (kind != "none") m.reset(make_machine(kind, ar, nx));
+#else
+            if (kind != "none") bad_script("no functor dispatcher is compiled into this driver");
+#endif
+            return VOID;
         }
-        if (op == "Insert")
+#if C17_FUNCTOR
+        if (op == "Insert" || op == "Erase" || op == "Dispatch" || op == "Clone" || op == "Take" || op == "Drop2")
         {
-            if (!m) { std::fprintf(stderr, "script: no dispatcher\n"); std::exit(3); }
-            m->insert(a.ints("t"), int(a.num("h")));
-            return "{\"exc\":\"none\",\"val\":[]}";
-        }
-        if (op == "Erase")
-        {
-            if (!m) { std::fprintf(stderr, "script: no dispatcher\n"); std::exit(3); }
-            m->erase(a.ints("t"));
-            return "{\"exc\":\"none\",\"val\":[]}";
-        }
-        if (op == "Dispatch")
-        {
-            if (!m) { std::fprintf(stderr, "script: no dispatcher\n"); std::exit(3); }
-            std::vector<hz::Base*> os;
-            for (long long id : a.ints("os")) os.push_back(pool.get(id));
-            g_lookup = [this](const void* p) { return pool.find(p); };
-            outcome o = m->dispatch(os, a.ints("xs"));
+            if (!m) bad_script("no dispatcher");
+            int slot = int(a.num("d", 1));
+            if (op == "Insert") { m->insert(slot, a.ints("t"), int(a.num("h"))); return VOID; }
+            if (op == "Erase") { m->erase(slot, a.ints("t")); return VOID; }
+            if (op == "Clone") { m->clone(a.str("how")); return VOID; }
+            if (op == "Take") { m->take(a.str("how")); return VOID; }
+            if (op == "Drop2") { m->drop2(); return VOID; }
+            outcome o = m->dispatch(slot, a.ints("os"), a.ints("xs"));
             what = o.what;
             return outcome_json(o);
         }
+#endif
+#if C17_STATIC
         if (op == "Static" || op == "StaticSym")
         {
             std::vector<int> lhs = toint(a.ints("lhs")), rhs = toint(a.ints("rhs"));
             bool sym = op == "StaticSym", cst = a.at("cst").b;
+            std::string cv = a.has("cv") ? a.str("cv") : std::string("same");
             auto os = a.ints("os");
-            if (os.size() != 2) { std::fprintf(stderr, "script: static dispatch takes two objects\n"); std::exit(3); }
+            if (os.size() != 2) bad_script("static dispatch takes two objects");
             for (auto& s : smenu)
-                if (s.lhs == lhs && s.rhs == rhs && s.sym == sym && s.cst == cst)
+                if (s.lhs == lhs && s.rhs == rhs && s.sym == sym && s.cst == cst && s.cv == cv)
                 {
                     exec_t ex;
-                    g_lookup = [this](const void* p) { return pool.find(p); };
-                    hz::Base& x = *pool.get(os[0]);
-                    hz::Base& y = *pool.get(os[1]);
-                    outcome ab = guarded([&]() { return s.fn(x, y, ex); }, "on_error");
+                    g_lookup = [this](const void* p) { return spool.find(p); };
+                    hz::Base& x = *spool.get(os[0]);
+                    hz::Base& y = *spool.get(os[1]);
+                    outcome ab = guarded_here([&]() { return s.fn(x, y, ex); }, "on_error");
                     if (!sym) return outcome_json(ab);
-                    outcome ba = guarded([&]() { return s.fn(y, x, ex); }, "on_error");
+                    outcome ba = guarded_here([&]() { return s.fn(y, x, ex); }, "on_error");
                     return "{\"exc\":\"none\",\"val\":{\"ab\":" + outcome_json(ab) + ",\"ba\":" + outcome_json(ba) + "}}";
                 }
-            std::fprintf(stderr, "script: no static dispatcher with these type lists is compiled in\n");
-            std::exit(3);
+            bad_script("no static dispatcher with these type lists is compiled in");
         }
+#endif
+#if C17_VISIT
         if (op == "Accept")
         {
             const std::string& v = a.str("v");
-            std::vector<int> set = toint(a.ints("vis"));
+            const std::string& name = a.str("m");
             long long oid = a.num("o");
             outcome o;
-            if (v == "default") o = accept_in(w_default, set, oid, "catch_all");
-            else if (v == "throwing") o = accept_in(w_throwing, set, oid, "catch_all");
-            else if (v == "cdefault") o = accept_in(w_cdefault, set, oid, "catch_all");
-            else if (v == "crecording") o = accept_in(w_crecording, set, oid, "catch_all");
-            else if (v == "recording") o = accept_in(w_recording, set, oid, "catch_all");
-            else if (v == "void") o = accept_in(w_void, set, oid, "catch_all");
-            else { std::fprintf(stderr, "script: unknown visitable variant %s\n", v.c_str()); std::exit(3); }
+            if (v == "default") o = accept_in(w_default, name, oid, "catch_all");
+            else if (v == "throwing") o = accept_in(w_throwing, name, oid, "catch_all");
+            else if (v == "cdefault") o = accept_in(w_cdefault, name, oid, "catch_all");
+            else if (v == "crecording") o = accept_in(w_crecording, name, oid, "catch_all");
+            else if (v == "recording") o = accept_in(w_recording, name, oid, "catch_all");
+            else if (v == "void") o = accept_in(w_void, name, oid, "catch_all");
+            else bad_script("unknown visitable variant");
             what = o.what;
             return outcome_json(o);
         }
@@ -842,14 +1327,16 @@ struct interp
             long long oid = a.num("o");
             check_oid(oid);
             bool cst = a.at("cst").b;
-            if (cst) g_lookup = [this](const void* p) { return w_ccyc.find(p); };
-            else g_lookup = [this](const void* p) { return w_cyc.find(p); };
-            outcome o = cst ? guarded([&]() { return w_ccyc.accept(oid); }, "catch_all")
-                            : guarded([&]() { return w_cyc.accept(oid); }, "catch_all");
+            const std::string& rv = a.str("rv");
+            outcome o;
+            if (rv == "long") o = cst ? cyclic_in(w_ccyc, oid) : cyclic_in(w_cyc, oid);
+            else if (rv == "void") o = cst ? cyclic_in(w_vccyc, oid) : cyclic_in(w_vcyc, oid);
+            else bad_script("unknown cyclic visitor return type");
             what = o.what;
             return outcome_json(o);
         }
-        std::fprintf(stderr, "script: unknown op %s\n", op.c_str());
+#endif
+        std::fprintf(stderr, "script: op %s is not compiled into this driver\n", op.c_str());
         std::exit(3);
     }
 
@@ -859,12 +1346,13 @@ struct interp
         while (std::getline(std::cin, line))
         {
             if (line.empty()) continue;
+            arm_cpu_limit();
             vj::value e = vj::parse(line);
             std::string res = step(e);
             std::string head = line.substr(0, line.rfind('}'));
             std::string out = head + ",\"res\":" + res + ",\"st\":" + state();
             // advisory (representation level, never part of a verdict): class indices, exception type
-            out += ",\"l2\":{\"idx\":" + vj::ints(hz::indices()) + ",\"what\":\"" + what + "\"}}\n";
+            out += ",\"l2\":" + l2() + "}\n";
             std::fputs(out.c_str(), stdout);
         }
         return 0;
@@ -874,12 +1362,29 @@ struct interp
 int main(int argc, char** argv)
 {
     vj::install_crash_handlers();
+    std::signal(SIGVTALRM, on_cpu_limit);
+    g_shm = static_cast<shm_t*>(::mmap(nullptr, sizeof(shm_t), PROT_READ | PROT_WRITE, MAP_SHARED | MAP_ANONYMOUS, -1, 0));
+    if (g_shm == MAP_FAILED) g_shm = nullptr;
     if (argc > 1 && std::string(argv[1]) == "--caps")
     {
         // what this build of the library offers (probed at compile time, not assumed)
-        bool fe = machine<const hz::Base, 2, 0, xtl::static_caster, xtl::basic_fast_dispatcher>().can_erase();
-        bool me = machine<const hz::Base, 2, 0, xtl::static_caster, xtl::basic_dispatcher>().can_erase();
-        std::printf("{\"fast_erase\":%s,\"map_erase\":%s,\"kind\":%d}\n", fe ? "true" : "false", me ? "true" : "false", int(C17_KIND));
+        bool fe = false, me = false, cp = false;
+#if C17_HAS(4)
+        {
+            machine<HZ, true, 2, 0, functor_flavor<xtl::static_caster, xtl::basic_fast_dispatcher>> mm;
+            fe = mm.can_erase();
+            cp = mm.can_copy();
+        }
+#endif
+#if C17_HAS(1)
+        {
+            machine<HZ, true, 2, 0, functor_flavor<xtl::dynamic_caster, xtl::basic_dispatcher>> mm;
+            me = mm.can_erase();
+            cp = mm.can_copy();
+        }
+#endif
+        std::printf("{\"fast_erase\":%s,\"map_erase\":%s,\"copyable\":%s,\"kind\":%d,\"fork\":%d}\n", fe ? "true" : "false",
+                    me ? "true" : "false", cp ? "true" : "false", int(C17_KIND), int(C17_FORK));
         return 0;
     }
     interp I;
